@@ -1123,10 +1123,16 @@ class StrategyBase(Node):
         # now convert to unstacked series, dropping nans along the way
         trades = trades[trades != 0].unstack().dropna()
 
-        # Adjust prices for bid/offer paid if needed
+        # Adjust prices for bid/offer paid if needed - aggregated per ticker
+        # like the positions, a ticker may be held by several securities
         if self._bidoffer_set:
-            bidoffer = pd.DataFrame({x.name: x.bidoffers_paid for x in self.securities}).unstack()
-            prc += bidoffer / trades
+            bidoffer = pd.DataFrame()
+            for x in self.securities:
+                if x.name in bidoffer.columns:
+                    bidoffer[x.name] += x.bidoffers_paid
+                else:
+                    bidoffer[x.name] = x.bidoffers_paid
+            prc += bidoffer.unstack() / trades
 
         res = pd.DataFrame({"price": prc, "quantity": trades}).dropna(subset=["quantity"])
 
